@@ -28,6 +28,8 @@ def setup():
         _ns = load_doctrans()
         fs.install_step_seam(_ns.pkg_dir)
         fs.wrap_conversions(_ns)
+        global _proc
+        _proc = fs.ProcState()
     return _ns
 
 
@@ -120,7 +122,27 @@ def named_files(op):
     return []
 
 
-def run_op(ns, world, knobs, op, fault=None, record_steps=False, real_kill=False):
+_proc = None  # fs.ProcState baseline, captured by setup()
+
+
+def is_cli_op(op):
+    """Does this operation run as its own OS process (a command-line invocation) or inside the user's long-lived
+    process (an API call)?"""
+    return op["op"] in ("cli", "gen") or op.get("via", "cli") == "cli"
+
+
+def run_op(ns, world, knobs, op, fault=None, record_steps=False, real_kill=False, where="here", fresh=False):
+    """where='fork': run the operation in a forked child (a separate OS process; with fresh=True the child first
+    returns the doctrans package to its import-time state, i.e. it is a *new* process).  where='here': run it in this
+    process, whose module-level state therefore carries over to the next in-process operation."""
+    if where == "fork":
+        def child():
+            if fresh and _proc is not None:
+                _proc.restore_baseline()
+            out, sim = run_op(ns, world, knobs, op, fault=fault, record_steps=record_steps, real_kill=real_kill)
+            return out, fs.SimResult(sim)
+
+        return fs.run_forked(child)
     sim = fs.Sim(world, fault=fault, bufsize=knobs.get("bufsize", 8192), record_steps=record_steps, real_kill=real_kill)
     fn = make_callable(ns, world, knobs, op)
     style = knobs.get("path_style")
@@ -473,6 +495,28 @@ def a3_check(op, kind, name, target_node, truth_kind, truth_node, ftype):
     return "summary", "summary %r in the file, %r by the in-memory conversion" % (a["doc"], b["doc"])
 
 
+def c11_after_fault(op, S0, S1, SF, simF, stats):
+    """C11 also has to hold for whatever a *failed* sync leaves behind: a target whose bytes changed must still carry
+    every other statement (a file equal to the fault-free result is covered by the fault-free check)."""
+    v = []
+    truth = _truth_info(op, S0)
+    for kind, name, f in iter_targets(op):
+        a, b, c = S0.get(f), S1.get(f), SF.get(f)
+        if a is None or c is None or c == a or c == b or is_truth_target(op, kind, f):
+            continue
+        t_before, t_after = _tree(a), _tree(c)
+        if t_before is None:
+            continue
+        pre = pre_state(kind, name, a, truth)
+        common = dict(target_kind=target_kind(kind, name), pre_state=pre, write=write_path(pre), fault=simF.fired["kind"], seam=simF.fired["event_kind"])
+        stats["c11_checked_after_fault"] = stats.get("c11_checked_after_fault", 0) + 1
+        if t_after is None:
+            v.append(viol("C11", "P-unparseable", op, "target %s does not parse after a failed sync (%s at %s)" % (f, simF.fired["kind"], simF.fired["event_kind"]), **common))
+            continue
+        v += c11_compare(op, f, name.split("."), kind, t_before, t_after, common, stats)
+    return v
+
+
 def before_bytes_differ(S0, S1, f):
     return S0.get(f) != S1.get(f)
 
@@ -545,7 +589,8 @@ def _first_diff(a, b):
 
 
 def op_spec(op):
-    return {k: v for k, v in op.items() if k not in ("fault", "tag")}
+    # the same invocation, whether it is made through the command line or through the API
+    return {k: v for k, v in op.items() if k not in ("fault", "tag", "via")}
 
 
 # ----------------------------------------------------------------- sync_properties
@@ -884,7 +929,15 @@ def execute(scenario, want_trace=False):
                 trace.append({"i": i, "op": "env", "path": op["path"], "label": op.get("label"), "sha": sha(op.get("text") or "")})
                 continue
             S0 = world.snapshot()
-            out1, sim1 = run_op(ns, world, knobs, op)
+            cli = is_cli_op(op)
+            has_fault = bool(op.get("fault"))
+            # The reference ("twin") execution always happens in a forked child, so that it leaves no trace in this
+            # process.  A fault-free command-line invocation *is* such a child (a new process); a fault-free API call
+            # runs here, in the long-lived process of the simulated user, and its module-level state carries over.
+            if cli or has_fault:
+                out1, sim1 = run_op(ns, world, knobs, op, where="fork", fresh=cli)
+            else:
+                out1, sim1 = run_op(ns, world, knobs, op)
             S1 = world.snapshot()
             ops_done += 1
             stats["ops"] = stats.get("ops", 0) + 1
@@ -892,10 +945,18 @@ def execute(scenario, want_trace=False):
             stats["steps"] = stats.get("steps", 0) + sim1.steps
             if scenario.get("twin_check") and i in scenario["twin_check"]:
                 world.restore(S0)
-                out1b, sim1b = run_op(ns, world, knobs, op)
+                out1b, sim1b = run_op(ns, world, knobs, op, where="fork", fresh=cli)
                 S1b = world.snapshot()
+                if not (cli or has_fault):
+                    pass  # (the in-process run above already happened; the probe runs in a child and leaves no trace)
+                world.restore(S1)
                 if S1b != S1 or sim1b.steps != sim1.steps or [e["kind"] for e in sim1b.events] != [e["kind"] for e in sim1.events]:
-                    raise HarnessError("twin execution is not deterministic for op %d (%s): steps %d vs %d" % (i, kind, sim1.steps, sim1b.steps))
+                    # The same operation on the same project gave a different run: something in the process outlived the
+                    # first execution.  The twin is then no oracle for this op (its fault is not evaluated); the driver
+                    # refuses to report a clean pass for a batch in which this happened.
+                    stats["twin_nondeterministic"] = stats.get("twin_nondeterministic", 0) + 1
+                    op = dict(op)
+                    op.pop("fault", None)
                 stats["twin_checks"] = stats.get("twin_checks", 0) + 1
             new = []
             if kind == "sync":
@@ -914,9 +975,16 @@ def execute(scenario, want_trace=False):
                 fault = resolve_fault(fault, sim1)
             if fault:
                 world.restore(S0)
-                outF, simF = run_op(ns, world, knobs, op, fault=fault)
+                if cli:
+                    outF, simF = run_op(ns, world, knobs, op, fault=fault, where="fork", fresh=True)
+                else:
+                    outF, simF = run_op(ns, world, knobs, op, fault=fault)
+                    if outF["status"] == "killed" and _proc is not None:
+                        _proc.restore_baseline()  # the user's process is dead; whatever comes next is a new one
                 SF = world.snapshot()
                 new += oracles_fault(op, S0, S1, SF, outF, simF, stats)
+                if kind == "sync" and simF.fired is not None:
+                    new += c11_after_fault(op, S0, S1, SF, simF, stats)
                 rec["fault"] = {"plan": fault, "fired": simF.fired, "status": outF["status"], "exc": outF.get("exc"),
                                 "post": {(f if f in S0 or f in S1 else "<stray>"): sha(d) for f, d in sorted(SF.items())}}
                 hist["prev"] = None
@@ -934,6 +1002,8 @@ def execute(scenario, want_trace=False):
                 break
     finally:
         world.close()
+        if _proc is not None:
+            _proc.restore_baseline()  # scenarios are independent of each other
     return {"violations": violations, "digest": digest(trace), "stats": stats, "trace": trace if want_trace else None, "ops_done": ops_done}
 
 
@@ -1054,22 +1124,27 @@ def execute_enum(scenario, nsteps=24):
         for i, op in enumerate(ops[:-1]):
             if op["op"] == "env":
                 world.write(op["path"], op.get("text"))
+            elif is_cli_op(op):
+                run_op(ns, world, knobs, op, where="fork", fresh=True)
             else:
                 run_op(ns, world, knobs, op)
         op = ops[-1]
         S0 = world.snapshot()
-        out1, sim1 = run_op(ns, world, knobs, op)
+        out1, sim1 = run_op(ns, world, knobs, op, where="fork", fresh=is_cli_op(op))
         S1 = world.snapshot()
         faults = enumerate_faults(sim1, scenario.get("seed", 0), nsteps)
         stats["enum_events"] = len(sim1.events)
         stats["enum_steps"] = sim1.steps
         stats["enum_faults"] = len(faults)
         digests = []
+        cli = is_cli_op(op)
         for f in faults:
             world.restore(S0)
-            outF, simF = run_op(ns, world, knobs, op, fault=f)
+            outF, simF = run_op(ns, world, knobs, op, fault=f, where="fork", fresh=cli)
             SF = world.snapshot()
             new = oracles_fault(op, S0, S1, SF, outF, simF, stats)
+            if op["op"] == "sync" and simF.fired is not None:
+                new += c11_after_fault(op, S0, S1, SF, simF, stats)
             digests.append([f, simF.fired is not None, outF["status"], {(p if p in S0 or p in S1 else "<stray>"): sha(d) for p, d in sorted(SF.items())}])
             for x in new:
                 x["op_index"] = len(ops) - 1
@@ -1080,6 +1155,8 @@ def execute_enum(scenario, nsteps=24):
         stats["steps"] = sim1.steps
     finally:
         world.close()
+        if _proc is not None:
+            _proc.restore_baseline()
     return {"violations": violations, "digest": digest(digests), "stats": stats, "status": out1["status"], "nfaults": len(faults)}
 
 
